@@ -2,7 +2,11 @@
 
 package freelist
 
-import "sort"
+import (
+	"sort"
+
+	"go.etcd.io/bbolt/internal/common"
+)
 
 // VerifSnapshot returns the free ids and the pending records (freeing txid,
 // page id, allocating txid or 0). The caller must be the writer.
@@ -42,4 +46,17 @@ func VerifReaders(f Interface) []uint64 {
 	}
 	sort.Slice(readers, func(i, j int) bool { return readers[i] < readers[j] })
 	return readers
+}
+
+// VerifAllocMark returns the transaction id recorded as the allocator of the run starting at id.
+func VerifAllocMark(f Interface, id uint64) (uint64, bool) {
+	var m map[common.Pgid]common.Txid
+	switch t := f.(type) {
+	case *array:
+		m = t.allocs
+	case *hashMap:
+		m = t.allocs
+	}
+	tx, ok := m[common.Pgid(id)]
+	return uint64(tx), ok
 }
